@@ -10,7 +10,9 @@ use dsharness::util::*;
 use semver::Version;
 use std::collections::HashMap;
 
-const LITS: &[&str] = &["a", "b", "c", "users", "v1"];
+/// (the last two hold a percent sign: a template's literal is matched as it is written,
+/// against the request's *decoded* segment, so only `/a%2520b` reaches `/a%20b`)
+const LITS: &[&str] = &["a", "b", "c", "users", "v1", "a", "b", "c", "users", "v1", "a%20b", "50%25"];
 const VARS: &[&str] = &["x", "y", "z"];
 const WILDS: &[&str] = &["r", "x"];
 const METHODS: &[&str] = &["GET", "PUT", "POST", "DELETE"];
@@ -173,7 +175,12 @@ fn instantiate(rng: &mut Rng, template: &str) -> String {
             }
         } else {
             out.push('/');
-            out.push_str(seg);
+            // a literal with a percent sign in it is reached by escaping that sign (mostly done)
+            if seg.contains('%') && !rng.chance(1, 4) {
+                out.push_str(&seg.replace('%', "%25"));
+            } else {
+                out.push_str(seg);
+            }
         }
     }
     out
@@ -226,7 +233,9 @@ fn gen_requests(rng: &mut Rng, eps: &[Ep], n: usize) -> Vec<(String, String, Opt
             perturb_path(rng, &p)
         };
         let method = match rng.below(10) {
-            0 => "PATCH".to_string(),
+            // methods no table holds: an extension method and two the framework might be
+            // tempted to treat specially
+            0 => rng.pick(&["PATCH", "PATCH", "TRACE", "OPTIONS"]).to_string(),
             1 => rng.pick(METHODS).to_lowercase(),
             _ => {
                 if !eps.is_empty() && rng.chance(2, 3) {
@@ -523,7 +532,7 @@ fn stream_rc() {
                     }
                 } else {
                     p.push('/');
-                    p.push_str(seg);
+                    p.push_str(&seg.replace('%', "%25"));
                 }
             }
             if p.is_empty() {
